@@ -32,12 +32,12 @@ type Ctx struct {
 	dest  *tc.Dest
 	// Judged is the text the source-level oracles judge: moq's output, or (rejected-by-formatter rule)
 	// the -fmt noop output of the same case.
-	Judged      []byte
-	ViaNoop     bool
-	NonTrivial  bool
-	Notes       map[string]int // counters the oracle wants reported
-	Extra       map[string]any // sample details
-	runCounter  int
+	Judged     []byte
+	ViaNoop    bool
+	NonTrivial bool
+	Notes      map[string]int // counters the oracle wants reported
+	Extra      map[string]any // sample details
+	runCounter int
 }
 
 func NewCtx(env core.Env, c *core.Case, w *tc.World, dir string) *Ctx {
